@@ -7,6 +7,7 @@ pub mod c12;
 pub mod c13;
 pub mod c15;
 pub mod c16;
+pub mod c17;
 pub mod c18;
 pub mod statsgen;
 
@@ -24,6 +25,7 @@ pub fn run(id: &str, ctx: &Ctx) -> bool {
         "C13" => c13::run(ctx),
         "C15" => c15::run(ctx),
         "C16" => c16::run(ctx),
+        "C17" => c17::run(ctx),
         "C18" => c18::run(ctx),
         _ => return false,
     }
@@ -37,6 +39,7 @@ pub fn replay(id: &str, ctx: &Ctx, case: &Value) -> Option<()> {
         "C13" => c13::check_case(ctx, case),
         "C15" => c15::check_case(ctx, case),
         "C16" => c16::check_case(ctx, case),
+        "C17" => c17::check_case(ctx, case),
         "C18" => c18::check_case(ctx, case),
         _ => return None,
     }
